@@ -29,7 +29,7 @@ TIERS = {
     "thorough": {"runs": 8000, "batch": 1, "timeout_s": 1200, "cycles": 7, "shrink_budget": 80},
 }
 RULE = ("History = (functional x method x user-object kind x function kind x usage in {forward, forward+backward, "
-        "forward+graph-recording backward+second backward} x persistent-or-rebuilt user object x debug mode on/off x method tuning knobs x LAPACK failing once per call x cycle length 1-3 x "
+        "forward+graph-recording backward+second backward (autograd.grad, or for operators the accumulating .backward(create_graph=True) with the caller resetting .grad)} x persistent-or-rebuilt user object x debug mode on/off x method tuning knobs x LAPACK failing once per call x cycle length 1-3 x "
         "release order), repeated for 5 (quick) cycles with the cyclic GC disabled; census of live torch.Tensor "
         "objects (gc.get_objects) whenever the result pool is empty. Violation iff the tensor count strictly "
         "increases on each of three consecutive cycles after the warm-up cycle, or iff on three consecutive cycles "
